@@ -102,8 +102,8 @@ func (w *schedWorker) Item(idx int, emit func(vf.Violation), st sweep.Stats, sam
 			return
 		}
 		tr := r1.Trace
-		if len(tr) > 60 {
-			tr = tr[len(tr)-60:]
+		if len(tr) > 400 {
+			tr = tr[len(tr)-400:]
 		}
 		emit(vf.Violation{Sig: sig, Detail: fmt.Sprintf("%s: %s: %s (schedule of %d choices, replayed twice with the same result)", sc.Name, problem, detail, len(x.Choices)),
 			Replay: map[string]any{"scenario": sc.Name, "choices": x.Choices, "status": x.Status, "observed": x.Out, "expected": want, "trace_tail": tr}})
